@@ -5,6 +5,8 @@ use crate::rng::LogHash;
 use serde::{Deserialize, Serialize};
 use std::collections::{BTreeMap, BTreeSet};
 
+pub const STATE_CAP: usize = 150_000;
+
 #[derive(Clone, Debug, Default, Serialize, Deserialize)]
 pub struct RunStats {
     /// oracle / monitor evaluations
@@ -59,7 +61,12 @@ impl RunStats {
             *self.counters.entry(k.clone()).or_insert(0) += v;
         }
         self.tuples.extend(o.tuples.iter().cloned());
-        self.states.extend(o.states.iter().copied());
+        // cap memory/IO: beyond the cap the distinct-state count becomes a lower bound
+        if self.states.len() < STATE_CAP {
+            self.states.extend(o.states.iter().copied());
+        } else {
+            *self.counters.entry("states_not_recorded_after_cap".into()).or_insert(0) += o.states.len() as u64;
+        }
     }
     pub fn take_probes(&mut self) {
         for (k, v) in delaunay::verif::probe::take() {
